@@ -263,7 +263,11 @@ def c05_run(tid, wcfg, cfgline, history, final):
     our_as4 = None
     # the peer's BGP identifier is not part of the acceptance policy: it changes from session to session in two of
     # three runs (A,B,C,... / A,A,B,B,... / always A)
-    ids = (0x0a000002, 0x0a000003, 0xc0a80001)
+    # ... and it takes values of every address class, the agent's own identifier among them (the policy of the property
+    # is version, AS and hold time, nothing else)
+    allids = (0x0a000002, 0x0a000003, 0xc0a80001, 0x00000000, 0xe0000005, 0xffffffff, 0x7f000001, 0x0a000001, 0xefffffff, 0xf0000000, 0x00000001, 0xa9fe0001)
+    rot = (tid // 3) % len(allids)
+    ids = tuple(allids[(rot + k) % len(allids)] for k in range(3))
     for si, (var, ending) in enumerate(history + [(final, 'observe')]):
         bgp_id = ids[(0, si % 3, ((si + 1) // 2) % 3)[tid % 3]]
         if c is None:
@@ -609,7 +613,7 @@ def url_rules():
 
 def bodies_for(rule):
     """[(name, json body or None, rq description)]"""
-    u = {'cls': RULE_CLASS.get(rule, 'unknown'), 'valid': False, 'etype': '', 'wdn': 0, 'nln': 0, 'ats': [], 'ibgp': False, 'lp': -1}
+    u = {'cls': RULE_CLASS.get(rule, 'unknown'), 'valid': False, 'etype': '', 'wdn': 0, 'nln': 0, 'ats': [], 'ibgp': False, 'lp': -1, 'aspl': -1}
     if rule == 'send/update':
         base = {'1': 0, '2': [[2, [65001]]], '3': '10.0.0.1'}
         return [('announce', {'attr': dict(base), 'nlri': ['10.5.0.0/16', '10.6.6.0/24']}, dict(u, valid=True, etype='UPDATE', nln=2, ats=[1, 2, 3])),
@@ -674,6 +678,12 @@ def c16_run(tid, wcfg, cfgline, state, rule, method, cred, bname, body, rq):
     c16_reach(w, rec, state)
     pre = rec.pre['o']['stat']
     rq = dict(rq, ibgp=wcfg['las'] == wcfg['ras'])
+    # the AS numbers of a requested AS_PATH go out in the width negotiated for THIS session: 4 octets exactly when both
+    # OPENs carried capability 65
+    rq.setdefault('aspl', -1)
+    if rule == 'send/update' and isinstance(body, dict) and isinstance((body.get('attr') or {}).get('2'), list):
+        four = wcfg.get('four_bytes_as', True) and 'as4' in (wcfg.get('peer_caps') or ['mp', 'rr', 'as4'])
+        rq['aspl'] = sum(2 + len(seg[1]) * (4 if four else 2) for seg in body['attr']['2'])
     o = rec.step({'k': 'rest', 'c': 0, 'rule': rule, 'method': method, 'cred': cred, 'body': body if method in ('POST', 'PUT', 'OPTIONS', 'PATCH', 'DELETE') else None, 'm': bname}, 0,
                  extra={'rq': rq})
     rec.lines[-1]['statsame'] = (pre == o['stat'])
@@ -691,7 +701,7 @@ def c16_run(tid, wcfg, cfgline, state, rule, method, cred, bname, body, rq):
 def max_size_bodies():
     """send/update and send/bin_update requests whose UPDATE is exactly 4096 / 4095 / 4000 octets (eBGP, 4-octet AS)"""
     out = []
-    u = {'cls': 'send', 'valid': True, 'etype': 'UPDATE', 'wdn': 0, 'nln': 0, 'ats': [1, 2, 3], 'ibgp': False, 'lp': -1}
+    u = {'cls': 'send', 'valid': True, 'etype': 'UPDATE', 'wdn': 0, 'nln': 0, 'ats': [1, 2, 3], 'ibgp': False, 'lp': -1, 'aspl': -1}
     base = {'1': 0, '2': [[2, [65001]]], '3': '10.0.0.1'}
     for total, tail in ((4096, ['10.250.0.0/16']), (4095, ['10.0.0.0/8']), (4093, []), (4097, ['10.250.1.0/24']), (5043, [])):
         n32 = (total - 43 - sum({24: 4, 16: 3, 8: 2}[int(t.split('/')[1])] for t in tail)) // 5
@@ -716,6 +726,11 @@ def c16_jobs(tier, seed):
     for rule in ('send/update', 'send/bin_update'):
         for (bname, body, rq) in bodies_for(rule):
             jobs.append(('c16', dict(las=65001, ras=65002, hold=90, rib=True, afi_safi=['ipv4', 'ipv6']), 'ESTABLISHED', rule, 'POST', 'good', bname, body, rq))
+    # sessions on which only one side offered the 4-octet-AS capability (AS numbers then travel in 2 octets)
+    for extra in (dict(four_bytes_as=False), dict(peer_caps=['mp', 'rr']), dict(four_bytes_as=False, peer_caps=['mp', 'rr'])):
+        for rule in ('send/update', 'send/bin_update', 'json_to_bin'):
+            for (bname, body, rq) in bodies_for(rule):
+                jobs.append(('c16', dict(las=65001, ras=65002, hold=90, **extra), 'ESTABLISHED', rule, 'POST', 'good', bname, body, rq))
     for wcfg in (dict(las=65001, ras=65002, hold=90, afi_safi=['ipv4', 'ipv6']), dict(las=65001, ras=65001, hold=90)):
         for state in C16_STATES:
             for rule in rules:
